@@ -20,6 +20,10 @@ type c11Case struct {
 	Cut      int      `json:"cut"`
 	Reset    bool     `json:"reset"`
 	Stride   int      `json:"stride,omitempty"`
+	// FailWriteFrom > 0 (full close only): the peer is already gone while
+	// requests it sent are still readable - the j-th reply write and all later
+	// ones fail, the bytes up to Cut can still be read.
+	FailWriteFrom int `json:"fail_write_from,omitempty"`
 }
 
 func c11Check(cs c11Case) (clause, detail string) {
@@ -37,7 +41,7 @@ func c11Check(cs c11Case) (clause, detail string) {
 	if cs.Reset {
 		end = seq.EndReset
 	}
-	r := runDouble(seq.Script{Input: input[:cs.Cut], Stride: cs.Stride, End: end}, func(s *redis.Server, d *srv.Double) {
+	r := runDouble(seq.Script{Input: input[:cs.Cut], Stride: cs.Stride, End: end, FailWriteFrom: cs.FailWriteFrom}, func(s *redis.Server, d *srv.Double) {
 		s.SetAuthCommandHandler(d)
 		catalogueDouble(d)
 	})
@@ -124,19 +128,22 @@ func c11Run(c *fw.Ctx) {
 			total += len(r)
 		}
 		for cut := 0; cut <= total; cut++ {
-			for _, reset := range []bool{false, true} {
+			for _, mode := range []string{"eof", "reset", "reset+write-fails@1", "reset+write-fails@2"} {
 				for _, stride := range []int{0, 1} {
-					cs := c11Case{Requests: reqs, Labels: labels, Cut: cut, Reset: reset, Stride: stride}
+					cs := c11Case{Requests: reqs, Labels: labels, Cut: cut, Reset: mode != "eof", Stride: stride}
+					if i := strings.IndexByte(mode, '@'); i > 0 {
+						cs.FailWriteFrom = int(mode[i+1] - '0')
+						if cs.FailWriteFrom > len(reqs) || stride != 0 {
+							continue
+						}
+						mode = mode[:i]
+					}
 					c.Eval()
 					if stride == 0 {
 						c.Nontrivial()
 					}
 					if clause, detail := c11Check(cs); clause != "" {
 						last := labels[len(labels)-1]
-						mode := "eof"
-						if reset {
-							mode = "reset"
-						}
 						c.Violation("C11|"+last[:strings.IndexByte(last, '|')]+"|"+mode+"|"+clause, detail+" pipeline="+strings.Join(labels, " ; ")+" input="+trunc(concat(reqs...)[:cut], 100), cs)
 					}
 				}
@@ -189,14 +196,14 @@ func c11Replay(raw json.RawMessage) (string, bool, error) {
 		return "", false, err
 	}
 	clause, detail := c11Check(cs)
-	return fmt.Sprintf("pipeline=%v cut=%d reset=%v stride=%d clause=%q %s", cs.Labels, cs.Cut, cs.Reset, cs.Stride, clause, detail), clause != "", nil
+	return fmt.Sprintf("pipeline=%v cut=%d reset=%v fail_write_from=%d stride=%d clause=%q %s", cs.Labels, cs.Cut, cs.Reset, cs.FailWriteFrom, cs.Stride, clause, detail), clause != "", nil
 }
 
 func init() {
 	fw.Register(&fw.Prop{
 		ID:          "C11",
 		Level:       "fault_enumeration",
-		Rule:        "pipelines of 1 valid request (every valid shape of the catalogue, <=4 per command in quick, plus requests with optional tails such as 'LPOP k 5', 'PING m', 'SET k v EX 5', pair lists, 2- and 3-digit lengths) and of 2 requests (representative x valid; thorough: representative triples); EVERY byte offset 0..len as the point where the stream ends x {half-close: Read->EOF, writes succeed; full close: Read->ECONNRESET, writes fail} x {whole, 1-byte delivery}. Oracle: recorded handler calls = the calls of exactly the completely delivered requests (taken from running each alone), their replies once and in order (half-close), then loop returned, transport closed, registry empty. Non-trivial = distinct (pipeline, cut, close mode).",
+		Rule:        "pipelines of 1 valid request (every valid shape of the catalogue, <=4 per command in quick, plus requests with optional tails such as 'LPOP k 5', 'PING m', 'SET k v EX 5', pair lists, 2- and 3-digit lengths) and of 2 requests (representative x valid; thorough: representative triples); EVERY byte offset 0..len as the point where the stream ends x {half-close: Read->EOF, writes succeed; full close: Read->ECONNRESET, writes fail afterwards; full close noticed early: reply write #1 or #2 and all later ones fail while the bytes sent before the close are still readable} x {whole, 1-byte delivery}. Oracle: recorded handler calls = the calls of exactly the completely delivered requests (taken from running each alone), their replies once and in order (half-close), then loop returned, transport closed, registry empty. Non-trivial = distinct (pipeline, cut, close mode).",
 		Assumptions: []string{"an error reply written for the partial request itself is tolerated; any handler call or non-error reply for it is a violation"},
 		Run:         c11Run,
 		Replay:      c11Replay,
